@@ -217,6 +217,12 @@ func c15Targets(p *core.Prog, r *core.Run, pre string) {
 			if b.Op == "call" && (b.Name == "slices.Clone") {
 				b = b.Args[0]
 			}
+			// slices.Concat(h.ALPN, []string{"http/1.1"}): a fresh list that starts with the record's
+			if c, isCall := b.Val.(*ssa.Call); isCall && b.Op == "call" && b.Name == "slices.Concat" && len(c.Call.Args) == 1 {
+				if parts := variadicArgs(p, c.Call.Args[0]); len(parts) >= 1 {
+					b = parts[0]
+				}
+			}
 			v, ok := recField(b, "ALPN")
 			if !ok || v != rv {
 				pair = false
@@ -332,7 +338,7 @@ func c15Targets(p *core.Prog, r *core.Run, pre string) {
 	}
 	fs := p.Facts(yield.Block())
 	valid, unseen := false, false
-	var addrV *core.Expr
+	var addrV, okFlagFilter *core.Expr
 	for _, f := range fs {
 		if f.Op == "true" && f.L.Op == "call" && f.L.Name == "(net/netip.AddrPort).IsValid" {
 			valid = true
@@ -340,6 +346,36 @@ func c15Targets(p *core.Prog, r *core.Run, pre string) {
 		}
 		if f.Op == "false" && f.L.Op == "lookup" {
 			unseen = true
+		}
+	}
+	// the filter may also report with an ok-flag instead of the zero address: a
+	// helper all of whose returns are (zero, false) or (AddrPortFrom(converted
+	// address, port), true)
+	if !valid {
+		for _, f := range fs {
+			if f.Op != "true" || f.L.Op != "ext" || f.L.Name != "#1" || f.L.Args[0].Op != "call" || f.L.Args[0].Fn == nil || !inModule(p, f.L.Args[0].Fn) {
+				continue
+			}
+			flt := f.L.Args[0].Fn
+			okShape := len(core.Returns(flt)) > 0
+			for _, ret := range core.Returns(flt) {
+				if len(ret.Results) != 2 {
+					okShape = false
+					continue
+				}
+				a, flag := p.X(ret.Results[0]), p.X(ret.Results[1])
+				switch {
+				case flag.Name == "false" && a.Op == "const":
+				case flag.Name == "true" && a.Op == "call" && a.Name == "net/netip.AddrPortFrom" && a.Args[0].Any(func(x *core.Expr) bool { return x.Op == "call" && x.Name == "net/netip.AddrFromSlice" }):
+				default:
+					okShape = false
+				}
+			}
+			if okShape {
+				valid = true
+				addrV = &core.Expr{Op: "ext", Name: "#0", Args: []*core.Expr{f.L.Args[0]}, Val: nil}
+				okFlagFilter = f.L.Args[0]
+			}
 		}
 	}
 	set := false
@@ -357,6 +393,7 @@ func c15Targets(p *core.Prog, r *core.Run, pre string) {
 		viaFilter = true
 		for _, a := range addrV.Alts() {
 			switch {
+			case okFlagFilter != nil && a.Op == "ext" && a.Name == "#0" && a.Args[0] == okFlagFilter:
 			case a.Op == "call" && a.Fn != nil && inModule(p, a.Fn) && len(callSites(p, core.Closures(a.Fn), `net/netip\.AddrFromSlice`)) == 1:
 			case a.Op == "call" && a.Name == "net/netip.AddrPortFrom" && a.Args[0].Any(func(x *core.Expr) bool { return x.Op == "call" && x.Name == "net/netip.AddrFromSlice" }):
 			case a.Op == "const" && a.Name == "zero":
